@@ -153,12 +153,12 @@ func init() {
 				}
 			}
 			if len(leaves) > 0 {
-				// deterministic choice: order by marshalled form
+				// deterministic choice: order by the harness's own rendering (no call into the package here)
 				best := leaves[0]
-				bb, _ := json.Marshal(best)
+				bb := sxSchema(best)
 				for _, l := range leaves[1:] {
-					lb, _ := json.Marshal(l)
-					if bytes.Compare(lb, bb) < 0 {
+					lb := sxSchema(l)
+					if lb < bb {
 						best, bb = l, lb
 					}
 				}
